@@ -37,6 +37,9 @@ class Race(E1Check):
         from asphalt.core import Context, get_resource, inject, resource
 
         p = program["race"]
+        if "compwait" in p:
+            await self.compwait(env, p["compwait"])
+            return
         calls = {"n": 0}
         made: list[Any] = []
         two = p["types"] == 2
@@ -235,6 +238,100 @@ class Race(E1Check):
                 env.fail("factory", f"racing lookups of one context returned {len(ids)} different objects")
 
 
+    async def compwait(self, env: Any, p: dict) -> None:
+        """A component asks for a resource in start() before anybody provides it, waits, and a sibling then publishes a factory (or a
+        plain resource): the lookup that is woken up is a lookup like any other."""
+        from asphalt.core import Component, Context, add_resource, add_resource_factory, get_resource, get_resource_nowait, inject, resource, start_component
+
+        kind, api, nw = p["kind"], p["api"], p["waiters"]
+        calls = {"n": 0}
+        made: list[Any] = []
+        got: dict[str, Any] = {}
+
+        async def afactory() -> Any:
+            calls["n"] += 1
+            env.log("factory+", calls["n"])
+            await env.gate(f"fac{calls['n']}")
+            v = A()
+            made.append(v)
+            env.log("factory-", calls["n"])
+            return v
+
+        def sfactory() -> Any:
+            calls["n"] += 1
+            env.log("factory", calls["n"])
+            v = A()
+            made.append(v)
+            return v
+
+        @inject
+        async def inj(r: A = resource("x")) -> Any:
+            return r
+
+        class W(Component):
+            def __init__(self, tag: str = "w") -> None:
+                self.tag = tag
+
+            async def start(self) -> None:
+                env.log("ask", self.tag)
+                if api == "nowait-first":
+                    # (a synchronous look first: nothing there yet, nothing registered by the miss)
+                    if get_resource_nowait(A, "x", optional=True) is not None:
+                        env.fail("factory", "an optional synchronous lookup found a resource nobody has published")
+                got[self.tag] = await (inj() if api == "inject" else get_resource(A, "x"))
+                env.log("got", self.tag)
+
+        class P(Component):
+            async def start(self) -> None:
+                await env.gate("publish")
+                env.log("publish")
+                if kind == "async":
+                    add_resource_factory(afactory, "x", types=[A])
+                elif kind == "sync":
+                    add_resource_factory(sfactory, "x", types=[A])
+                else:
+                    v = A()
+                    made.append(v)
+                    add_resource(v, "x")
+
+        class Root(Component):
+            def __init__(self) -> None:
+                for i in range(nw):
+                    self.add_component(f"w{i}", W, tag=f"w{i}")
+                self.add_component("p", P)
+
+        async with Context() as ctx:
+            try:
+                await start_component(Root, {}, timeout=None)
+            except Exception as e:  # noqa: BLE001
+                env.fail("factory", f"a component that waited for the resource failed to start: {type(e).__name__}: {str(e)[:120]} caused by {e.__cause__!r}")
+                return
+            if kind != "res" and calls["n"] != 1:
+                env.fail("factory", f"the factory was called {calls['n']} times for one context")
+            if len(made) != 1:
+                env.fail("factory", f"{len(made)} objects were produced for one context")
+                return
+            for tag, v in got.items():
+                if v is not made[0]:
+                    env.fail("stable", f"the waiting component {tag} got {v!r}, the context's object is {made[0]!r}")
+            if len(got) != nw:
+                env.fail("factory", f"{nw - len(got)} waiting components never got the resource")
+            if ctx.get_resource_nowait(A, "x") is not made[0] or await ctx.get_resource(A, "x") is not made[0]:
+                env.fail("stable", "a later lookup in the same context returned another object")
+            if kind != "res":
+                async with Context() as child:
+                    if kind == "async":
+                        try:
+                            child.get_resource_nowait(A, "x")
+                            env.fail("factory", "the synchronous API served an asynchronous factory")
+                        except Exception as e:  # noqa: BLE001
+                            if type(e).__name__ != "AsyncResourceError":
+                                env.fail("factory", f"sync lookup of an async factory raised {type(e).__name__}")
+                    v2 = await child.get_resource(A, "x")
+                    if v2 is made[0] or len(made) != 2:
+                        env.fail("visible", "a context created afterwards did not generate its own object")
+
+
 class _null:
     async def __aenter__(self) -> None:
         return None
@@ -293,8 +390,13 @@ def two_type_units(tier: str) -> list:
     return units
 
 
+def compwait_units(tier: str) -> list:
+    return [{"race": {"compwait": {"kind": k, "api": a, "waiters": w}}} for k in ("async", "sync", "res") for a in ("shortcut", "inject", "nowait-first")
+            for w in ((1, 2) if tier == "thorough" else (1,))]
+
+
 def race_units(tier: str) -> list:
-    units = adder_units(tier) + fail_first_units(tier) + cancel_first_units(tier)
+    units = adder_units(tier) + fail_first_units(tier) + cancel_first_units(tier) + compwait_units(tier)
     ntasks = (2,) if tier == "quick" else (2, 3)
     for is_async in (True, False):
         for types in (1, 2):
